@@ -17,6 +17,9 @@ class Writer(Protocol):
 
 
 class IPSWriter(Writer):
+    # A record whose offset is 0x454F46 is indistinguishable from the "EOF" end marker.
+    EOF_OFFSET = 0x454F46
+
     def __init__(self, file: BinaryIO, copier_header: bool = False) -> None:
         self.file = file
         self._regions: list[tuple[int, int]] = []
@@ -28,6 +31,8 @@ class IPSWriter(Writer):
     def write_block_header(self, block: bytes, block_address: int) -> None:
         if self._copier_header:
             block_address += 0x200
+        if block_address == self.EOF_OFFSET:
+            raise ValueError("IPS cannot encode a record at offset 0x454F46 (it reads as the EOF marker).")
         self.file.write(struct.pack(">BH", block_address >> 16, block_address & 0xFFFF))
         self.file.write(struct.pack(">H", len(block)))
 
@@ -35,6 +40,10 @@ class IPSWriter(Writer):
         k = 0
         while block[k:]:
             slice_size = min(0xFFFF, len(block) - k)
+            next_record = block_address + slice_size + (0x200 if self._copier_header else 0)
+            if next_record == self.EOF_OFFSET and slice_size < len(block) - k:
+                # end this record one byte early so that the next one does not start on the marker
+                slice_size -= 1
             block_slice = block[k : k + slice_size]
 
             self.write_block_header(block_slice, block_address)
